@@ -6,17 +6,18 @@ from common import *
 from symgo import pgpmodel
 
 ID = 'C11'
+HDR_LEN_PROBE = b'-----BEGIN PGP SIGNED MESSAGE-----\nHash: SHA256\n\n'
 PKG = 'control'
 C = MOD + '/control.'
 ROOTS = [C + 'VerifC11Signed', C + 'VerifC11Unsigned']
-REPLAY_TIMEOUT_MS = 120000
+REPLAY_TIMEOUT_MS = 300000
 TXT = bytes(x for x in range(0x21, 0x7f) if x not in b'-')
 META = dict(
     functions_encoded=['control.NewParagraphReader (15-byte peek)', '(*ParagraphReader).decodeClearsig', '(*ParagraphReader).Signer', 'control.NewDecoder', '(*Decoder).Signer',
                        'the paragraph reader', 'bufio / bytes.Buffer / bytes.Reader / io.ReadAll from SSA'],
     stubs=['idealised OpenPGP (engine/symgo/pgpmodel.py): abstract keys; a signature is the record (key, signed bytes); CheckDetachedSignature drains both readers and succeeds iff the key is in the keyring and the bytes are exactly the signed ones; clearsign.Decode parses an abstract armour with the structure of the real one',
            'the harness helpers verifKey / verifClearsign are real (RSA keys, clearsign.Encode) in native replays and modelled in the symbolic run'],
-    bounds={'quick': 'a signed text of one or two "K: v" fields with symbolic names and values (every byte value but newline inside a value, carriage return included), signed by one of two keys, read with each of five keyrings (empty literal, nil list, either key, both), through NewParagraphReader and NewDecoder; damage: none, substitution / deletion / insertion of one symbolic byte at every position of the document, truncation at every position, foreign text appended or prepended; plain input of up to 4 arbitrary bytes never reports a signer',
+    bounds={'quick': 'a signed text of one or two "K: v" fields with symbolic names and values (every byte value but newline inside a value, carriage return included), signed by one of two keys, read with each of five keyrings (empty literal, nil list, either key, both), through NewParagraphReader and NewDecoder; damage: none, substitution / deletion / insertion of one symbolic byte at every position of the document, truncation at every position, foreign text appended or prepended; an accepted document read again with an empty keyring; a damaged signature packet may also be answered with errors.UnsupportedError; plain input of up to 4 arbitrary bytes never reports a signer',
             'thorough': 'texts with 3 fields; damage at every position with two-byte insertions'},
     outside_claim=['the cryptographic strength of OpenPGP (a tampered text makes verification fail: idealised here)', 'a nil keyring pointer (documented to switch verification off)',
                    'the exact canonicalisation clearsign applies to the signed text (trailing blanks, line endings): the model hands the signed bytes on unchanged'],
@@ -81,6 +82,15 @@ def run_job(env, job):
         return merge_results(rs)
     return run_harness(env, PKG, 'VerifC11Signed', [text, job['signer'], job['keyring'], job['tamper'], 0, 0, job['via']], assume, unwind=400, unsigned=(5,),
                        sample='signed text of %d fields, signer %d, keyring mode %d, damage kind %d, via %s' % (job['nf'], job['signer'], job['keyring'], job['tamper'], 'NewDecoder' if job['via'] else 'NewParagraphReader'))
+
+
+def replay_args(c):
+    # byte positions inside the abstract signature block are not those of the real armour: for a substitution there the
+    # native replay searches the real signature block for a substitution with the same kind of verdict
+    a = list(c['args'])
+    if c['func'] == 'VerifC11Signed' and a[3] == 1 and a[4] >= len(HDR_LEN_PROBE) + len(bytes(a[0])):
+        a[4] = -1
+    return a
 
 
 def validation_calls(env, seed):
